@@ -32,7 +32,12 @@ def main():
         if mod is None or not hasattr(mod, 'MANIFEST'):
             not_app.append(dict(property_id=pid, reason=na.get(pid, 'check not built yet (work in progress); not claimed')))
             continue
-        m = mod.MANIFEST
+        m = dict(mod.MANIFEST)
+        for sub in getattr(mod, 'SUBCHECKS', SUBCHECKS.get(pid, [])):
+            sm = importlib.import_module('props.' + sub)
+            if hasattr(sm, 'MANIFEST'):
+                m['text'] = m['text'] + '  ' + sm.MANIFEST['text']
+                m['note'] = m['note'] + '  [' + sub + '] ' + sm.MANIFEST['note']
         checks.append(dict(
             property_id=pid,
             quick_cmd='./check %s --tier quick%s' % (pid, ''.join(' --with ' + x for x in getattr(mod, 'SUBCHECKS', SUBCHECKS.get(pid, [])))),
